@@ -187,7 +187,7 @@ pub fn c07(rep: &mut Report, cfg: &Cfg) {
     };
 
     // (a) all 65 536 first words
-    let reps = if thorough { 24 } else { 6 };
+    let reps = if thorough { 96 } else { 6 };
     for w0 in 0..=0xffffu32 {
         work += 1;
         if !cfg.mine(work) {
